@@ -30,6 +30,9 @@ type Endpoint struct {
 	Allowed  func(w Win, ts int64) bool
 	Run      func(x *Exec, cluster bool, w Win) Resp
 	Thorough bool // only in the thorough tier
+	// FloatNs: the route reads its nanosecond start/end with ParseFloat (Loki query_range); only used to NAME a
+	// deviation (a float64 holds 19-digit integers only to the nearest multiple of 256), never to excuse one.
+	FloatNs bool
 	// Limit > 0: the request carries limit=N; at least min(N, owed) owed items have to come back.
 	Limit int
 }
@@ -95,7 +98,7 @@ func endpoints() []*Endpoint {
 
 	// ---------------- Loki: log queries ----------------
 	lokiQR := func(name, group, query, extra string, thorough bool) {
-		add(&Endpoint{Name: name, Group: group, Items: "samples", Signal: typeLog, Unit: 1, Must: halfOpen, Allowed: halfOpen, Thorough: thorough,
+		add(&Endpoint{Name: name, Group: group, Items: "samples", Signal: typeLog, Unit: 1, Must: halfOpen, Allowed: halfOpen, Thorough: thorough, FloatNs: true,
 			Run: get("/loki/api/v1/query_range?query=" + q(query) + "&start={Sns}&end={Ens}&limit=1000" + extra)})
 	}
 	lokiQR("loki_query_range_log_backward", "loki_query_range_log", sel, "", false)
@@ -110,7 +113,7 @@ func endpoints() []*Endpoint {
 
 	// ---------------- Loki: metric queries (step = range, so that every in-window sample is owed) ----------------
 	lokiMetric := func(name, group, query string, g int64, shortcut, thorough bool) {
-		add(&Endpoint{Name: name, Group: group, Items: "samples", Signal: typeLog, Unit: 1, Must: halfOpen, Allowed: metricAllowed(g, shortcut), Thorough: thorough,
+		add(&Endpoint{Name: name, Group: group, Items: "samples", Signal: typeLog, Unit: 1, Must: halfOpen, Allowed: metricAllowed(g, shortcut), Thorough: thorough, FloatNs: true,
 			Run: get("/loki/api/v1/query_range?query=" + q(query) + "&start={Sns}&end={Ens}&step=" + fmt.Sprint(g/1e9))})
 	}
 	lokiMetric("loki_query_range_rate_5s", "loki_query_range_metric", `rate(`+sel+`[5s])`, 5e9, false, false)
@@ -202,7 +205,7 @@ func endpoints() []*Endpoint {
 	add(&Endpoint{Name: "tempo_search_tags_limit1", Group: "tempo_search_tags", Items: "traces", Signal: -1, Unit: 1e9,
 		Must: never, Allowed: closed, Limit: 1, Run: get("/api/search?tags=" + q("job=c13") + "&start={Ss}&end={Es}&limit=1")})
 	add(&Endpoint{Name: "loki_query_range_log_limit1", Group: "loki_query_range_log", Items: "samples", Signal: typeLog, Unit: 1,
-		Must: never, Allowed: halfOpen, Limit: 1, Run: get("/loki/api/v1/query_range?query=" + q(sel) + "&start={Sns}&end={Ens}&limit=1")})
+		Must: never, Allowed: halfOpen, Limit: 1, FloatNs: true, Run: get("/loki/api/v1/query_range?query=" + q(sel) + "&start={Sns}&end={Ens}&limit=1")})
 	tr("tempo_tags_v2", "tempo_tags_v2", "/api/v2/search/tags?start={Ss}&end={Es}", open, indexOnlyAllowed, false)
 	tr("tempo_tag_values_v2", "tempo_tag_values_v2", "/api/v2/search/tag/cls/values?start={Ss}&end={Es}", open, indexOnlyAllowed, false)
 	tr("tempo_tags_v2_query", "tempo_tags_v2_query", "/api/v2/search/tags?q="+q(`{.job="c13"}`)+"&start={Ss}&end={Es}", open, closed, false)
